@@ -5,6 +5,7 @@ import (
 	"fmt"
 	"os"
 	"sort"
+	"strings"
 )
 
 type checkFn func(c *Check)
@@ -63,5 +64,8 @@ func run(prop, tier string, fn checkFn) (code int) {
 		}
 	}()
 	fn(c)
+	if strings.HasPrefix(prop, "X") {
+		return 0 // exploration helpers print only
+	}
 	return c.Finish()
 }
